@@ -328,6 +328,7 @@ func runCheck(pd *propDef, tier string, seed int, verifDir, only string, workers
 	evidencePath := filepath.Join(verifDir, "evidence", pd.ID+".json")
 	os.Remove(evidencePath)
 
+	crossChecked, crossUnknown := 0, 0
 	var hev []harnessEvidence
 	var samples []interface{}
 	inconclusive := []string{}
@@ -371,6 +372,9 @@ func runCheck(pd *propDef, tier string, seed int, verifDir, only string, workers
 		if hd.Cfg != nil {
 			hd.Cfg(&spec.Cfg)
 		}
+		if tier == "thorough" {
+			spec.Cfg.CrossCheck = true
+		}
 		if hd.DualTags != "" {
 			w2, err := cr.world(hd.DualTags)
 			if err != nil {
@@ -402,6 +406,24 @@ func runCheck(pd *propDef, tier string, seed int, verifDir, only string, workers
 		}
 		for _, f := range rep.Stubs {
 			stubsAll[f] = true
+		}
+		// --- cross-solver re-check of sampled assertion queries (thorough tier)
+		for _, cq := range rep.Cross {
+			others := []string{"z3-new", "cvc5"}
+			if spec.Cfg.IntMode {
+				others = []string{"cvc5"}
+			}
+			for _, o := range others {
+				v, err := sym.RunScript(o, cq.Script, 120*time.Second)
+				crossChecked++
+				if err != nil || v == sym.Unknown {
+					crossUnknown++
+					continue
+				}
+				if v != cq.Verdict {
+					inconclusive = append(inconclusive, fmt.Sprintf("%s: solvers disagree on assertion %s: primary %v, %s %v", hd.Name, cq.Label, cq.Verdict, o, v))
+				}
+			}
 		}
 		// --- problems
 		if len(rep.SolverErrs) > 0 {
@@ -575,19 +597,21 @@ func runCheck(pd *propDef, tier string, seed int, verifDir, only string, workers
 	}
 	sort.Strings(stubs)
 	cov := map[string]interface{}{
-		"states":                        totalPaths,
-		"transitions":                   totalSteps,
-		"traces_validated_against_impl": totalWitness,
-		"evaluations":                   totalQueries,
-		"distinct_nontrivial":           totalNonTrivial,
-		"rule":                          pd.Rule,
-		"samples":                       samples,
-		"harnesses":                     hev,
-		"functions_encoded":             funcs,
-		"stubs_hit":                     stubs,
-		"solver_s":                      solverS,
-		"inconclusive":                  inconclusive,
-		"solver":                        "see harnesses[].solver (z3 4.8.12 bit-vector encoding; z3 5.1.0 for the integer-with-wrap encoding of C20)",
+		"states":                         totalPaths,
+		"transitions":                    totalSteps,
+		"traces_validated_against_impl":  totalWitness,
+		"evaluations":                    totalQueries,
+		"distinct_nontrivial":            totalNonTrivial,
+		"rule":                           pd.Rule,
+		"samples":                        samples,
+		"harnesses":                      hev,
+		"functions_encoded":              funcs,
+		"stubs_hit":                      stubs,
+		"solver_s":                       solverS,
+		"inconclusive":                   inconclusive,
+		"cross_solver_queries_rechecked": crossChecked,
+		"cross_solver_unknown":           crossUnknown,
+		"solver":                         "see harnesses[].solver (z3 4.8.12 bit-vector encoding; z3 5.1.0 for the integer-with-wrap encoding of C20)",
 	}
 	if pd.Level == "translation_validation" {
 		cov["programs"] = len(hev)
